@@ -23,6 +23,7 @@ func init() {
 		},
 		Run: runC18,
 		Controls: []Control{
+			{Name: "optional-attributes-tail-dropped", File: "protocols/bgp/packet/path_attributes.go", Old: "\toptionals := last.AddOptionalPathAttributes(p)\n\n\tlast = optionals\n", New: "\tlast.AddOptionalPathAttributes(p)\n", Expect: "appended-tail-is-used"},
 			{Name: "entry-deleted-after-the-send", File: "protocols/bgp/server/update_sender.go", Old: "\t\t\tdelete(u.toSend, key)\n\t\t\tu.sendMu.Lock()\n\t\t\tu.toSendMu.Unlock()\n\n\t\t\tu.sendUpdates(pathAttrs, updatesPrefixes, pathID)\n\t\t\tu.sendMu.Unlock()\n\t\t\tu.toSendMu.Lock()", New: "\t\t\tu.sendMu.Lock()\n\t\t\tu.toSendMu.Unlock()\n\n\t\t\tu.sendUpdates(pathAttrs, updatesPrefixes, pathID)\n\t\t\tu.sendMu.Unlock()\n\t\t\tu.toSendMu.Lock()\n\t\t\tdelete(u.toSend, key)", Expect: "entry-taken-in-one-critical-section"},
 			{Name: "serializer-rejects-full-message", File: "protocols/bgp/packet/update.go", Old: "\tif totalLength > 4096 {", New: "\tif totalLength >= MaxLen {", Expect: "full-message-not-rejected"},
 			{Name: "refactor-gate-uses-constant", Silent: true, File: "protocols/bgp/packet/update.go", Old: "\tif totalLength > 4096 {", New: "\tif totalLength >= MaxLen+1 {"},
@@ -147,6 +148,7 @@ func runC18(c *core.Ctx) {
 			fmt.Sprintf("the size test of SerializeUpdate admits messages of at most %d octets; the update sender fills messages up to 4096: a completely filled UPDATE is rejected by the serializer and silently dropped, its prefixes are never announced", sizeGateMax[c]))
 	}
 	senderEntryCriticalSection(c)
+	appendedTailIsUsed(c, "appended-tail-is-used")
 	upd := "protocols/bgp/server.(*UpdateSender)."
 	getBudget := c.MustFunc(upd + "getBudget")
 	gui := c.MustFunc(upd + "_getUpdateInformation")
